@@ -114,6 +114,17 @@ pub fn run(case: &Value) -> Vec<Value> {
     let bytes = case["bytes"].as_bool().unwrap_or(false);
     let alpha: Vec<u8> = case["alphabet"].as_str().unwrap_or("<>/!-=\"' asxt[]?").as_bytes().to_vec();
     let mut out = Vec::new();
+    // valid UTF-8 over an alphabet of CHARACTERS, some of them multi-byte with continuation bytes that look like
+    // Latin-1 white space (0x85, 0xA0): the accessors must succeed on every token
+    if let Some(chars) = case.get("chars").and_then(|x| x.as_str()) {
+        let cs: Vec<char> = chars.chars().collect();
+        for _ in 0..n {
+            let l = rng.gen_range(0..=maxlen);
+            let input: String = (0..l).map(|_| cs[rng.gen_range(0..cs.len())]).collect();
+            out.push(run_one(input.into_bytes(), true));
+        }
+        return out;
+    }
     for _ in 0..n {
         let l = rng.gen_range(0..=maxlen);
         let input: Vec<u8> = (0..l).map(|_| if bytes && rng.gen_bool(0.3) { rng.gen::<u8>() } else { alpha[rng.gen_range(0..alpha.len())] }).collect();
@@ -138,7 +149,7 @@ pub fn run_lex(case: &Value) -> Vec<Value> {
                     TokenType::StartTagToken | TokenType::EndTagToken | TokenType::SelfClosingTagToken => t.tag_name().ok().and_then(|(n, _)| n).unwrap_or_default(),
                     _ => String::new(),
                 };
-                toks.push(json!({"t": ty(tt), "n": name, "raw": raw}));
+                toks.push(json!({"t": ty(tt), "n": crate::body::lossy(name.as_bytes()), "raw": raw}));
             }
         }
     }
